@@ -1,7 +1,7 @@
-(* Counterexamples to the soundness of the verdicts, evaluated on the model and
-   on the reference evaluator by vm_compute.  Each was first found by the
-   harness on the real code. *)
-From PV Require Import Lib.Bytes Model.Redundant Spec.MakeEval Spec.VerdictSound Spec.SingleFile.
+(* The remaining counterexample to the soundness of the verdicts (model of the
+   code with the fixes 01-04), and the former counterexamples, on which the
+   repaired code no longer emits the wrong verdict.  All by vm_compute. *)
+From PV Require Import Lib.Bytes Model.Redundant Spec.MakeEval Spec.VerdictSound.
 
 Definition vA : var := [86; 65]%N.   (* "VA" *)
 Definition vB : var := [86; 66]%N.   (* "VB" *)
@@ -43,54 +43,39 @@ Proof.
   intro H. apply verdict_sound_refuted. intros p vs vd Hwf Hck Hin _. exact (H p vs vd Hwf Hck Hin).
 Qed.
 
-(* VC= ${VA} / VA= a / VB:= ${VC} / VA= b :  "VA is overwritten in line 4" on
-   line 2, but VB:= read VA through VC: with line 2 VB is a, without it b. *)
+(* ----- repaired: the former counterexamples ----- *)
+
+(* VC= ${VA} / VA= a / VB:= ${VC} / VA= b : ':=' now also reads VA, no verdict *)
 Definition prog_indirect : program :=
   [ asg 0 1 vC OpAssign [Ref vA]; asg 0 2 vA OpAssign [Lit la];
     asg 0 3 vB OpEval [Ref vC]; asg 0 4 vA OpAssign [Lit lb] ].
-Lemma prog_indirect_facts :
-  wf_program prog_indirect = true /\
-  check prog_indirect = Ok [mkVerdict 1 3 KOverwritten] /\
-  final 6 (to_spec prog_indirect) vB = Some la /\
-  final 6 (to_spec (delete_nth 1 prog_indirect)) vB = Some lb.
-Proof. repeat split; vm_compute; reflexivity. Qed.
+Lemma prog_indirect_facts : check prog_indirect = Ok [].
+Proof. vm_compute. reflexivity. Qed.
 
-(* VA= a / VA!= c / VA= a : line 3 "is redundant because of line 2" since the
-   remembered text is still "a"; without line 3 VA is the output of c. *)
+(* VA= a / VA!= c / VA= a : line 3 is no longer "redundant"; the '!=' line is
+   now "overwritten in line 3", which is sound *)
 Definition prog_shell : program :=
   [ asg 0 1 vA OpAssign [Lit la]; asg 0 2 vA OpShell [Lit [99]%N];
     asg 0 3 vA OpAssign [Lit la] ].
 Lemma prog_shell_facts :
-  wf_program prog_shell = true /\
-  check prog_shell = Ok [mkVerdict 0 1 KRedundant; mkVerdict 2 1 KRedundant] /\
-  final 6 (to_spec prog_shell) vA = Some la /\
-  final 6 (to_spec (delete_nth 2 prog_shell)) vA = Some [60; 99; 62]%N.
+  check prog_shell = Ok [mkVerdict 0 1 KRedundant; mkVerdict 1 2 KOverwritten] /\
+  deletable_b 6 prog_shell 0 = true /\ deletable_b 6 prog_shell 1 = true.
 Proof. repeat split; vm_compute; reflexivity. Qed.
 
-(* main: VA= b / VA= a / .include "inc"   inc: VA?= a
-   line 2 "is redundant because of inc:1"; without it VA stays b. *)
+(* main: VA= b / VA= a / .include "inc"   inc: VA?= a : line 2 is no longer flagged *)
 Definition prog_incdefault : program :=
   [ asg 0 1 vA OpAssign [Lit lb]; asg 0 2 vA OpAssign [Lit la];
     mkLine 0 3 None; asg 1 1 vA OpDefault [Lit la] ].
-Lemma prog_incdefault_facts :
-  wf_program prog_incdefault = true /\
-  check prog_incdefault = Ok [mkVerdict 0 1 KOverwritten; mkVerdict 1 3 KRedundant] /\
-  final 6 (to_spec prog_incdefault) vA = Some la /\
-  final 6 (to_spec (delete_nth 1 prog_incdefault)) vA = Some lb.
-Proof. repeat split; vm_compute; reflexivity. Qed.
+Lemma prog_incdefault_facts : check prog_incdefault = Ok [mkVerdict 0 1 KOverwritten].
+Proof. vm_compute. reflexivity. Qed.
 
-(* VA= a / VA!= ${VA} : line 1 "is redundant because of line 2", but the shell
-   command reads it: with line 1 the command is "a", without it "". *)
+(* VA= a / VA!= ${VA} : no verdict *)
 Definition prog_shellself : program :=
   [ asg 0 1 vA OpAssign [Lit la]; asg 0 2 vA OpShell [Ref vA] ].
-Lemma prog_shellself_facts :
-  wf_program prog_shellself = true /\
-  check prog_shellself = Ok [mkVerdict 0 1 KRedundant] /\
-  final 6 (to_spec prog_shellself) vA = Some [60; 97; 62]%N /\
-  final 6 (to_spec (delete_nth 0 prog_shellself)) vA = Some [60; 62]%N.
-Proof. repeat split; vm_compute; reflexivity. Qed.
+Lemma prog_shellself_facts : check prog_shellself = Ok [].
+Proof. vm_compute. reflexivity. Qed.
 
-(* ----- each conjunct of the guard is needed ----- *)
+(* ----- the condition on the later line is needed ----- *)
 
 Lemma refute (P : program -> verdict -> Prop) p vs vd x v1 v2 :
   wf_program p = true -> check p = Ok vs -> In vd vs -> P p vd ->
@@ -102,60 +87,16 @@ Proof.
   specialize (H p vs vd Hwf Hck Hin HP 6%nat x). rewrite H1, H2 in H. congruence.
 Qed.
 
-(* without "no ':='/'!=' with a '$' strictly between the two lines" *)
-Lemma guard_needs_between :
+(* with only the condition for flagged earlier lines the statement is false *)
+Lemma guard_needs_eval_condition :
   ~ verdict_sound_on (fun p vd =>
-      plain_on (line_var p (vd_flagged vd)) (firstn (S (Nat.max (vd_flagged vd) (vd_because vd))) p) = true /\
-      backward_default_ok p vd = true /\ forward_same_ok p vd = true).
-Proof.
-  destruct prog_indirect_facts as (Hwf & Hck & H1 & H2).
-  eapply (refute _ prog_indirect _ (mkVerdict 1 3 KOverwritten) vB);
-    [exact Hwf|exact Hck|left; reflexivity| |exact H1|exact H2|discriminate].
-  repeat split; vm_compute; reflexivity.
-Qed.
-
-(* without "the assignments to the variable are plain" *)
-Lemma guard_needs_plain_on :
-  ~ verdict_sound_on (fun p vd =>
-      (if Nat.ltb (vd_flagged vd) (vd_because vd)
-       then eager_plain (between p (Nat.min (vd_flagged vd) (vd_because vd)) (Nat.max (vd_flagged vd) (vd_because vd)))
-       else true) = true /\
-      backward_default_ok p vd = true /\ forward_same_ok p vd = true).
+      Nat.ltb (vd_flagged vd) (vd_because vd) = true ->
+      eager_plain (between p (vd_flagged vd) (vd_because vd)) && line_plain p (vd_because vd) = true).
 Proof.
   destruct prog_eval_facts as (Hwf & Hck & H1 & H2).
   eapply (refute _ prog_eval _ verdict_eval vA);
     [exact Hwf|exact Hck|left; reflexivity| |exact H1|exact H2|discriminate].
-  repeat split; vm_compute; reflexivity.
-Qed.
-
-(* without forward_same_ok *)
-Lemma guard_needs_forward_same_ok :
-  ~ verdict_sound_on (fun p vd =>
-      plain_on (line_var p (vd_flagged vd)) (firstn (S (Nat.max (vd_flagged vd) (vd_because vd))) p) = true /\
-      (if Nat.ltb (vd_flagged vd) (vd_because vd)
-       then eager_plain (between p (Nat.min (vd_flagged vd) (vd_because vd)) (Nat.max (vd_flagged vd) (vd_because vd)))
-       else true) = true /\
-      backward_default_ok p vd = true).
-Proof.
-  destruct prog_shell_facts as (Hwf & Hck & H1 & H2).
-  eapply (refute _ prog_shell _ (mkVerdict 2 1 KRedundant) vA);
-    [exact Hwf|exact Hck|right; left; reflexivity| |exact H1|exact H2|discriminate].
-  repeat split; vm_compute; reflexivity.
-Qed.
-
-(* without backward_default_ok *)
-Lemma guard_needs_backward_default_ok :
-  ~ verdict_sound_on (fun p vd =>
-      plain_on (line_var p (vd_flagged vd)) (firstn (S (Nat.max (vd_flagged vd) (vd_because vd))) p) = true /\
-      (if Nat.ltb (vd_flagged vd) (vd_because vd)
-       then eager_plain (between p (Nat.min (vd_flagged vd) (vd_because vd)) (Nat.max (vd_flagged vd) (vd_because vd)))
-       else true) = true /\
-      forward_same_ok p vd = true).
-Proof.
-  destruct prog_incdefault_facts as (Hwf & Hck & H1 & H2).
-  eapply (refute _ prog_incdefault _ (mkVerdict 1 3 KRedundant) vA);
-    [exact Hwf|exact Hck|right; left; reflexivity| |exact H1|exact H2|discriminate].
-  repeat split; vm_compute; reflexivity.
+  vm_compute. discriminate.
 Qed.
 
 (* the guard is satisfiable, for each kind of verdict:
@@ -178,6 +119,5 @@ Lemma prog_good_eval_facts :
   guard prog_good_eval (mkVerdict 2 1 KRedundant) = true /\ eager_plain prog_good_eval = false.
 Proof. repeat split; vm_compute; reflexivity. Qed.
 
-Lemma prog_good_single :
-  single_file prog_good = true /\ eager_plain prog_good = true /\ no_shell prog_good = true.
-Proof. repeat split; vm_compute; reflexivity. Qed.
+Lemma prog_good_plain : eager_plain prog_good = true.
+Proof. vm_compute. reflexivity. Qed.
